@@ -5,7 +5,7 @@
     source are regenerated into Gen/FsWalk_gen.v on every run and the premises [backend_keys_ok], [walk_ok] (and
     the chain parameters) are discharged for them by kernel-checked instance obligations in checks/c19.py. *)
 From Coq Require Import List NArith Bool Permutation.
-From SV Require Import SM.FsChain SM.FsChainProofs SM.FsChainRel SM.FsChainWitness SM.FsChainRaw SM.FsChainCompose SM.FsChainComplete SM.FsChainNorm SM.FsChainForms SM.FsChainFormsProofs.
+From SV Require Import SM.FsChain SM.FsChainProofs SM.FsChainRel SM.FsChainWitness SM.FsChainRaw SM.FsChainCompose SM.FsChainComplete SM.FsChainNorm SM.FsChainForms SM.FsChainFormsProofs SM.FsChainWhole.
 Import ListNotations.
 Open Scope N_scope.
 
@@ -399,3 +399,71 @@ Theorem c19_vpk_preload_shortcut_refuted :
   /\ open_bytes c 2 true fixed_zip [([120], [1; 2; 3])] [120] = Some [1; 2]
   /\ option_map snd (open_ fixed_zip [([120], [1; 2; 3])] [120]) = Some [1; 2; 3].
 Proof. exact ceval_preload_shortcut_refuted. Qed.
+
+(** ** Round 3: the chain sentence of the property as one statement over members of any kind. *)
+
+(** [chain_spec] is written from the property text alone: the members in priority order as (files, subfolder); the
+    first one whose files contain subfolder/name - up to letter case, either slash, redundant segments - gives the
+    content.  Every public lookup form of a chain is that function: the File of [chain[q]] / [_get_file(q)], what
+    [open_bin(q)] / [open_str(q)] resolve, the answer of [q in chain] / [_file_exists(q)] in every sound shape, and the
+    bytes read from the handle - for every query string, every ordering of members of whatever backend kind (VPK
+    members keeping the bytes in any placement, read through an expression recognised as whole), restricted members
+    that miss before members that hit. *)
+Theorem c19_chain_every_form_spec : forall em ms q,
+  exists_mode_ok em = true -> Forall kmember_ok ms ->
+  chain_get (map k_member ms) q = chain_spec (map k_spec ms) q
+  /\ chain_open (map k_member ms) q = chain_spec (map k_spec ms) q
+  /\ chain_exists em (map k_xmember ms) q = is_some (chain_spec (map k_spec ms) q)
+  /\ chain_read ms q = option_map snd (chain_spec (map k_spec ms) q).
+Proof. exact chain_every_form_spec. Qed.
+(** Hence "all filesystem backends resolve names alike" holds through chains: two chains whose members hold the same
+    files under the same subfolders in the same order answer every lookup form alike, whatever kind each member is
+    and wherever a VPK member keeps the bytes. *)
+Theorem c19_chain_backend_kind_unobservable : forall em1 em2 ms1 ms2 q,
+  exists_mode_ok em1 = true -> exists_mode_ok em2 = true ->
+  Forall kmember_ok ms1 -> Forall kmember_ok ms2 -> map k_spec ms1 = map k_spec ms2 ->
+  chain_get (map k_member ms1) q = chain_get (map k_member ms2) q
+  /\ chain_exists em1 (map k_xmember ms1) q = chain_exists em2 (map k_xmember ms2) q
+  /\ chain_read ms1 q = chain_read ms2 q.
+Proof. exact chain_backend_kind_unobservable. Qed.
+(** The specification's two laws: the first member that has the name wins; a member that misses changes nothing. *)
+Theorem c19_chain_spec_first : forall fs p r q e,
+  spec_lookup fs (normpath (slash (pjoin p q))) = Some e -> chain_spec ((fs, p) :: r) q = Some e.
+Proof. exact chain_spec_first. Qed.
+Theorem c19_chain_spec_skip : forall fs p r q,
+  spec_lookup fs (normpath (slash (pjoin p q))) = None -> chain_spec ((fs, p) :: r) q = chain_spec r q.
+Proof. exact chain_spec_skip. Qed.
+(** With the preload shortcut of seeded c19_4 the kind of a member is observable through a chain (the hypotheses of
+    the theorem above are satisfiable: both witness chains without the shortcut are [kmember_ok]). *)
+Theorem c19_chain_read_preload_shortcut_refuted :
+  map k_spec [kw_zip; kw_mem] = map k_spec [kw_zip; kw_vpk (CIfDir CPreload CRead)]
+  /\ chain_read [kw_zip; kw_mem] [120] = Some [1; 2; 3]
+  /\ chain_read [kw_zip; kw_vpk (CIfDir CPreload CRead)] [120] = Some [1; 2]
+  /\ chain_read [kw_zip; kw_vpk CRead] [120] = Some [1; 2; 3]
+  /\ Forall kmember_ok [kw_zip; kw_mem] /\ Forall kmember_ok [kw_zip; kw_vpk CRead].
+Proof. exact chain_read_preload_shortcut_refuted. Qed.
+
+(** The walk of such a chain: every entry [walk_folder(folder)] lists (empty or clean folder and subfolders) is the
+    specification's answer for the listed name - the name can be looked up in every form and reading it yields the
+    listed file's bytes, i.e. those of the first member that has the name ... *)
+Theorem c19_chain_walk_every_entry_spec : forall em dops ms folder x,
+  exists_mode_ok em = true -> dedup_ops_ok dops = true -> Forall kmember_walk_ok ms -> okp folder ->
+  In x (chain_walk RelDropSegs dops (map k_member ms) folder) ->
+  chain_spec (map k_spec ms) (fst x) = Some (snd x)
+  /\ chain_get (map k_member ms) (fst x) = Some (snd x)
+  /\ chain_exists em (map k_xmember ms) (fst x) = true
+  /\ chain_read ms (fst x) = Some (snd (snd x)).
+Proof. exact chain_walk_every_entry_spec. Qed.
+(** ... and whatever the specification serves under a clean name inside the folder is listed (up to letter case) with
+    that very file; [iter(chain)] = [walk_folder('')] lists every clean name the chain serves. *)
+Theorem c19_chain_walk_lists_spec : forall dops ms folder q f,
+  dedup_ops_ok dops = true -> Forall kmember_walk_ok ms -> okp folder ->
+  clean_name q = true -> path_prefix (nkey folder) (nkey q) ->
+  chain_spec (map k_spec ms) q = Some f ->
+  exists x, In x (chain_walk RelDropSegs dops (map k_member ms) folder) /\ nkey (fst x) = nkey q /\ snd x = f.
+Proof. exact chain_walk_lists_spec. Qed.
+Theorem c19_chain_iter_lists_spec : forall dops ms q f,
+  dedup_ops_ok dops = true -> Forall kmember_walk_ok ms -> clean_name q = true ->
+  chain_spec (map k_spec ms) q = Some f ->
+  exists x, In x (chain_walk RelDropSegs dops (map k_member ms) []) /\ nkey (fst x) = nkey q /\ snd x = f.
+Proof. exact chain_iter_lists_spec. Qed.
